@@ -282,6 +282,19 @@ def native_run(probe_c, driver_c, tag):
                 pass
 
 
+NOREPLAY_SH = r'''#!/bin/bash
+# This counterexample has no stand-alone native replay (the property is about machine state at a point inside the
+# function, e.g. a call site). The probe below is the input; re-run the check to re-derive the verdict.
+cat <<'EOF_INFO'
+%s
+EOF_INFO
+cat > "$WORK/p.c" <<'EOF_P'
+%s
+EOF_P
+"$CHIBICC" -I"$CHIBICC_INCLUDE" -S -o "$WORK/p.s" "$WORK/p.c" && echo "probe compiled to $WORK/p.s (inspect the emitted code)"
+exit 1
+'''
+
 REPLAY_SH = r'''#!/bin/bash
 # Replay of an E2 (asm-smt) counterexample against the real compiler.
 # env: CHIBICC (binary built from /repo's tree), CHIBICC_INCLUDE, WORK (scratch dir)
@@ -434,14 +447,14 @@ def _work(idxs):
                 if rs is None or vals.get("__expected") is None or g.name.split("/")[0] != "value":
                     res["status"] = "violated-unreplayed"
                     res["detail"] = desc
-                    res["replay"] = "# no native replay available\n# %s\n%s" % (desc, p.csrc)
+                    res["replay"] = NOREPLAY_SH % (desc.replace("'", "").replace("`", ""), p.csrc)
                     break
                 probe_c, driver_c, exp = rs
                 exp_hex = p.expected_hex(exp)
                 kind, rc2, out = native_run(probe_c, driver_c, "rp")
                 got = out.strip().split("\n")[0] if kind == "ran" else "%s rc=%s" % (kind, rc2)
                 script = REPLAY_SH % dict(probe=probe_c, driver=driver_c, key=p.key, expected=exp_hex,
-                                          note=desc.replace("'", ""))
+                                          note=desc.replace("'", "").replace("`", "").replace("$", ""))
                 res["replay"] = script
                 if kind == "ran" and rc2 == 0 and _same_result(p, got, exp_hex):
                     res["status"] = "mismatch"
@@ -454,7 +467,7 @@ def _work(idxs):
             rs = p.runtime_replay() if hasattr(p, "runtime_replay") else None
             res["status"] = "violated-unreplayed"
             res["detail"] = str(ex)
-            res["replay"] = "# %s\n%s" % (ex, p.csrc)
+            res["replay"] = NOREPLAY_SH % (str(ex).replace("'", ""), p.csrc)
             if rs is not None:
                 ok, out, script = run_runtime_replay(rs)
                 res["replay"] = script
